@@ -41,6 +41,12 @@ def main(tier, seed, replay=None):
         if S >= 3 and i % 4 == 1:
             sc = c["scalar"]
             Y[2][2] = [hx(round_to(2 * unhx(a) - unhx(b), sc), sc) for a, b in zip(Y[2][0], Y[2][1])]  # dependent column
+        if S >= 2 and i % 4 == 2:
+            # an observation column that is identically zero (its coefficients are exactly zero): nothing about the OTHER columns
+            # may depend on it, wherever it stands — in particular in first position
+            zc = 0 if i % 8 == 2 else rng.randrange(S)
+            Y[2][zc] = [hx(0.0, c["scalar"])] * c["meta"]["N"]
+            c["meta"]["zero_column"] = zc
         ops = states.observe_at(rng, c, nsets=1)
         c["ops"] = ops
         singles = []
